@@ -434,7 +434,8 @@ def main(check, argv=None):
         os.makedirs(os.path.join(VERIF, 'evidence'), exist_ok=True)
         with open(os.path.join(VERIF, 'evidence', check.PROP + '.json'), 'w') as f:
             json.dump(ev, f, indent=1, sort_keys=True)
-    print('%s %s: runs=%d nontrivial=%d distinct=%d steps=%d violations=%d known=%d wall=%.1fs' % (
+    dset = hashlib.sha1(','.join(sorted(total['digests'])).encode()).hexdigest()[:12]
+    print('%s %s: runs=%d nontrivial=%d distinct=%d steps=%d violations=%d known=%d wall=%.1fs dset=%s' % (
         check.PROP, tier, total['runs'], total['nontrivial'], len(total['digests']), total['steps'],
-        len(reported), len(set(known_lines)), wall))
+        len(reported), len(set(known_lines)), wall, dset))
     sys.exit(exit_code)
